@@ -22,6 +22,11 @@ CHECKS = {
    "Trusted: the harness' transliterations of the specification code. Bin is not judged where the specification is silent (see evidence assumptions). Large CSI geometries and wide BAI bin lists are sampled.",
    "property-based testing: exhaustive grid enumeration + rapid, oracle = independent spec transliteration and overlap=>membership relation",
    "DESIGN.md 3/C16"),
+ "C19": ("exploration",
+   "Generated-input search: rapid FASTA files (records, widths, LF/CRLF, final newline, blank lines, descriptions) whose true layout is known to the generator; oracle = generator ground truth for Length/Start/line layout, WriteTo/ReadFrom round trip, and exact sub-sequence equality for boundary-biased (start,end) ranges read through File with several buffer sizes, then io.EOF.",
+   "Ground truth is the generator's own bookkeeping; empty sequences and names with a double quote are outside the domain.",
+   "property-based testing (rapid), oracle = generator ground truth + round trip",
+   "DESIGN.md 3/C19"),
 }
 
 NOT_YET = {}
